@@ -44,6 +44,15 @@ type Op struct {
 	N   string   `json:"n,omitempty"`
 	Use []int    `json:"u,omitempty"` // defpackage: packages used besides cl
 	Exp []string `json:"e,omitempty"` // defpackage: exported names
+	// T: 1 + the package the operation acts on when that is given explicitly
+	// (the optional package argument of use-package, unuse-package, export,
+	// unexport, intern, unintern; the q::name form of setq, defvar, defun,
+	// makunbound, fmakunbound); 0: the current package. The meaning is that of
+	// the same operation evaluated with that package current.
+	T int `json:"t,omitempty"`
+	// V: the spelling of the operation (designators, equivalent forms); it has
+	// no meaning for the model.
+	V int `json:"v,omitempty"`
 }
 
 // KindOf tells the kind a name is used for: names starting with f are
@@ -205,8 +214,22 @@ func (w *World) uncovers(t int, name string) bool {
 	return false
 }
 
-// Names is the name universe of the histories.
-var Names = []string{"v0", "v1", "f0", "f1"}
+// Names is the name universe of the histories. vb and fb are the variable
+// and the function of one symbol (spelled b0 in the interpreter): two
+// independent definitions whose export flag is set and cleared together.
+var Names = []string{"v0", "v1", "f0", "f1", "vb", "fb"}
+
+// Sibling returns the other definition kind of a symbol that is used as a
+// variable and as a function, or "".
+func Sibling(name string) string {
+	switch name {
+	case "vb":
+		return "fb"
+	case "fb":
+		return "vb"
+	}
+	return ""
+}
 
 // Exp tells the export flag of a name in a package.
 func (w *World) Exp(p int, name string) Tri { return w.Pkgs[p].Exp[name] }
@@ -384,16 +407,39 @@ func (w *World) Target(name string) (pkg int, class string, ok bool) {
 // Classify names the construct an operation is, given the state before it,
 // and tells whether its outcome is determined by the property (ok).
 func (w *World) Classify(op Op) (class string, ok bool) {
+	if op.T != 0 {
+		t := op.T - 1
+		if len(w.Pkgs) <= t || !w.Pkgs[t].Exists {
+			return op.K + "/target-missing", false
+		}
+		if !TakesTarget(op.K) {
+			return op.K + "/target-unsupported", false
+		}
+		save := w.Cur
+		w.Cur = t
+		defer func() { w.Cur = save }()
+		op.T = 0
+	}
 	c := w.Cur
 	switch op.K {
+	case "fail":
+		// an operation that must be refused (unknown package, bad argument,
+		// failing value form): nothing changes
+		if op.N == "rename" && !w.Pkgs[op.P].Exists {
+			return "fail/invalid", false
+		}
+		return "fail/" + op.N, true
 	case "in":
 		if !w.Pkgs[op.P].Exists {
 			return "in/missing", false
 		}
 		return "in", true
 	case "use":
-		if !w.Pkgs[op.P].Exists || op.P == c {
+		if !w.Pkgs[op.P].Exists {
 			return "use/invalid", false
+		}
+		if op.P == c {
+			return "use/self", true // a package does not use itself: nothing changes
 		}
 		if w.uses(c, op.P) {
 			return "use/again", true
@@ -428,8 +474,11 @@ func (w *World) Classify(op Op) (class string, ok bool) {
 		}
 		return cls, true
 	case "unuse":
-		if !w.Pkgs[op.P].Exists || op.P == c {
+		if !w.Pkgs[op.P].Exists {
 			return "unuse/invalid", false
+		}
+		if op.P == c {
+			return "unuse/self", true
 		}
 		cls := "unuse/not-used"
 		if w.uses(c, op.P) {
@@ -528,7 +577,7 @@ func (w *World) Classify(op Op) (class string, ok bool) {
 		return op.K + "/" + cls, true
 	case "defpackage":
 		if w.Pkgs[op.P].Exists {
-			return "defpackage/exists", false
+			return "defpackage/exists", true // refused: defpackage defines a new package
 		}
 		for _, u := range op.Use {
 			if !w.Pkgs[u].Exists || u == op.P {
@@ -630,16 +679,29 @@ func (w *World) Classify(op Op) (class string, ok bool) {
 // Apply performs the operation; val is the fresh value token a defining
 // operation assigns. Classify must have said ok.
 func (w *World) Apply(op Op, val, step int) {
+	if op.T != 0 {
+		save := w.Cur
+		w.Cur = op.T - 1
+		defer func() { w.Cur = save }()
+		op.T = 0
+	}
 	c := w.Cur
 	switch op.K {
+	case "fail":
 	case "in":
 		w.Cur = op.P
 	case "use":
+		if op.P == c {
+			return
+		}
 		if !w.uses(c, op.P) {
 			w.Pkgs[c].Uses = append(w.Pkgs[c].Uses, op.P)
 		}
 		w.Pkgs[c].EverUsed[op.P] = true
 	case "unuse":
+		if op.P == c {
+			return
+		}
 		us := w.Pkgs[c].Uses[:0:0]
 		for _, u := range w.Pkgs[c].Uses {
 			if u != op.P {
@@ -674,8 +736,21 @@ func (w *World) Apply(op Op, val, step int) {
 		if w.Pkgs[c].Exp[op.N] == Yes {
 			w.Pkgs[c].Exp[op.N] = Maybe
 		}
+		// nor, for a symbol with two definition kinds, whether the flag of the
+		// other kind survives when that kind is not defined (a defined one
+		// stays exported)
+		if sib := Sibling(op.N); sib != "" {
+			for _, q := range []int{t, c} {
+				if _, has := w.Own(q, sib); !has && w.Pkgs[q].Exp[sib] == Yes {
+					w.Pkgs[q].Exp[sib] = Maybe
+				}
+			}
+		}
 	case "defpackage":
 		p := w.Pkgs[op.P]
+		if p.Exists {
+			return
+		}
 		p.Exists = true
 		p.Uses = append([]int{}, op.Use...)
 		for _, u := range op.Use {
@@ -713,8 +788,62 @@ func (w *World) Apply(op Op, val, step int) {
 
 // ExpectError tells whether the operation is documented to be refused.
 func (w *World) ExpectError(op Op) bool {
+	switch op.K {
+	case "fail":
+		return true
+	case "defpackage":
+		return w.Pkgs[op.P].Exists
+	}
 	return op.K == "delete" && w.Pkgs[op.P].Exists && 0 < len(w.Users(op.P))
 }
+
+// TakesTarget tells whether an operation kind can name the package it acts on.
+func TakesTarget(k string) bool {
+	switch k {
+	case "use", "unuse", "export", "unexport", "intern", "unintern",
+		"setq", "defvar", "defun", "makunbound", "fmakunbound":
+		return true
+	}
+	return false
+}
+
+// Clone returns an independent copy of the model state.
+func (w *World) Clone() *World {
+	n := &World{Cur: w.Cur, Origin: make(map[int]Origin, len(w.Origin))}
+	for k, v := range w.Origin {
+		n.Origin[k] = v
+	}
+	for _, p := range w.Pkgs {
+		q := newPkg()
+		q.Exists = p.Exists
+		q.Uses = append([]int{}, p.Uses...)
+		for k, v := range p.Exp {
+			q.Exp[k] = v
+		}
+		for k := 0; k < 2; k++ {
+			for n, v := range p.Defs[k] {
+				q.Defs[k][n] = v
+			}
+			for n, v := range p.Imp[k] {
+				q.Imp[k][n] = v
+			}
+		}
+		for k, v := range p.Interned {
+			q.Interned[k] = v
+		}
+		for k, v := range p.EverExp {
+			q.EverExp[k] = v
+		}
+		for k, v := range p.EverUsed {
+			q.EverUsed[k] = v
+		}
+		n.Pkgs = append(n.Pkgs, q)
+	}
+	return n
+}
+
+// UseList lists the packages p uses, in the order they were added.
+func (w *World) UseList(p int) []int { return append([]int{}, w.Pkgs[p].Uses...) }
 
 func sortedKeys(m map[string]Tri) []string {
 	ks := make([]string, 0, len(m))
